@@ -115,6 +115,8 @@ var reg = vk.Registry{
 	},
 }
 
+func init() { reg["sequence"] = vk.SequenceReplayer(reg) }
+
 func TestReplay(t *testing.T) { vk.RunReplay(t, reg) }
 
 // value alphabet: space-free; ':' only directly after a digit, so that no key
@@ -196,7 +198,7 @@ func eval(t vk.TB, c Case) {
 		rec.Class(c.Variant + "_not_canonical_order_or_subset")
 	}
 	rec.Sample(c.Variant, map[string]any{"text": c.text(), "case": c})
-	rec.Report(t, "receipt", check(c))
+	rec.ReportSeq(t, "receipt", c, func() *vk.Violation { return check(c) })
 }
 
 func TestSMPPReceipts(t *testing.T) {
